@@ -230,4 +230,35 @@ PROPS = {
         "level_text": "In every explored game, after every move, engines in the same state given the same request produced identical results, traces and persistent state, and hard-budget replays reproduced soft-limited searches exactly without exceeding the budget (~6e3 searches quick / ~6e4 thorough per build); no race report across concurrently running instances. Held on the executions observed.",
         "level_note": "trusted: digest hooks cover tt, gen and the four history tables (the whole state Search keeps between calls); scheduling diversity is whatever 16 goroutines + burners + GOMAXPROCS changes produce",
     },
+    "C19": {
+        "mod": "tharness",
+        "pkg": "./c19",
+        "stages": [{"name": "main", "timeout_q": 1500, "timeout_t": 7200}],
+        "rule": "cases = (a) valid positions loaded with ParseFEN without hash, as the tuner does (dense incl. promoted material with game phase > 24, sparse, mixed generators, KNB v K / bare kings, playouts; clocks 0..100): "
+                "|EngineRep(EngineCoeffs()).Eval(P) - white-relative eval.Eval[Score](P)| < 2.25, exactly 0 where no rounding applies (KNB v K, bare kings); EngineCoeffs() equals the shipped coefficients value by value; "
+                "(b) target-group choices for the vector mapping: DefaultTargets, all groups, none, every single group, and all 2^k subsets of random k in 6..10 groups (in both orders): every float field is tagged with a unique value by reflection in the harness, then "
+                "ToVector[i] == *TunedParams[i] == the i-th selected field in declaration order, SetVector(tags) is read back identically through ToVector and TunedParams, and no unselected field changes. The tuner packages are rsynced from the working tree into a scratch module. "
+                "distinct_nontrivial = distinct FEN texts evaluated.",
+        "assumptions": [REF + " (validity only)", "the 2.25 cp envelope is taken from the statement"],
+        "technique": "runtime monitor: differential oracle (float tuner evaluation vs integer engine evaluation within the stated envelope) + reflection-tagged bijection check of the parameter vector views",
+        "level_text": "On every explored position the tuner's float evaluation with the shipped coefficients stayed within 2.25 cp of the engine's integer evaluation (white-relative), exactly equal where no rounding applies; for every explored choice of tuned groups the three vector views addressed the same coefficient at the same index. Held on the executions observed.",
+        "level_note": "trusted: reflection walk over eval.CoeffSet[float64] in declaration order as the definition of 'the same coefficient'; scratch-module copy of tools/tuner/{epd,tuning,checksum}",
+    },
+    "C20": {
+        "mod": "tharness",
+        "pkg": "./c20",
+        "stages": [
+            {"name": "main", "timeout_q": 1500, "timeout_t": 7200, "stall": 150},
+            {"name": "asan", "flags": ["-asan"], "timeout_q": 1800, "timeout_t": 7200, "stall": 300, "tiers": ["thorough"]},
+        ],
+        "rule": "cases = (a) shuffle permutations: for every n in [1,6000] (thorough 20000) x epochs 0..15 + two random 64-bit epochs, and n = 2^k, 2^k+-1 up to 2^22 plus batch/chunk sizes, x -> VerifShuffleIndex(x,n,epoch) is checked to be a permutation of [0,n) with a bitmap; "
+                "(b) data files written by the harness in which every line is `<id>:<payload>` (a read identifies the line it delivered): every line count 1..300 (thorough 1200) x blank-line variants {none, at the start, single in the middle, runs, at the end, everywhere} x line lengths up to 4000 bytes, "
+                "sampled sizes up to 200001 lines (three batches; chunk boundary 6250; 2^k+-1), and one file larger than the 32 MiB read window with 2.8-4 KB lines straddling the refill boundary. For each file the whole epoch is read through tuning.Batches / tuning.Chunks / Chunker.Open / Chunk.Read and the delivered multiset must equal the non-blank lines byte for byte, "
+                "batches must partition [0,n) and chunks each batch; and an arbitrary sub-range [s,t) must deliver exactly the lines at the shuffled indices s..t-1. The tuner packages are rsynced from the working tree into a scratch module; files live under /verif/.build/tmp and are deleted. "
+                "evaluations = permutations + files; distinct_nontrivial = distinct n of the exhaustive shuffle range + distinct file sizes.",
+        "assumptions": ["documented format: newline-terminated lines below the 4 KiB line-reader buffer; blank lines are skipped", "a shuffle evaluation that does not return is reported by the runner's no-progress watchdog (150 s for work that takes microseconds)"],
+        "technique": "runtime monitor: exactly-once / no-loss checker with unique line ids over recorded reads + exhaustive permutation check of the epoch shuffle through an export hook",
+        "level_text": "For every explored (n, epoch) the shuffle was a permutation (exhaustive for n<=6000 quick / 20000 thorough); for every explored file, epoch and sub-range each non-blank line was delivered exactly once byte for byte, incl. blank lines in every place and lines straddling the 32 MiB read-window refill. Held on the executions observed.",
+        "level_note": "trusted: the harness's file writer and id scheme; real file I/O through the OS page cache",
+    },
 }
